@@ -481,7 +481,7 @@ pub fn links(outer: u8, inner: u8) -> Vec<&'static str> {
     }
 }
 
-fn flip_case(s: &str) -> String {
+pub fn flip_case(s: &str) -> String {
     s.chars()
         .map(|c| {
             if c.is_lowercase() {
@@ -513,7 +513,7 @@ fn leaf_val(v: &Val) -> Val {
     }
 }
 
-fn resolve_op(op: &OpS, from: &Val) -> OpC {
+pub fn resolve_op(op: &OpS, from: &Val) -> OpC {
     let v = leaf_val(op.lit.as_ref().unwrap_or(from));
     let allowed: &[u8] = match &v {
         Val::Int(_) | Val::Float(_) => &[0, 1, 2, 3, 4, 5],
@@ -1153,10 +1153,22 @@ fn constraint(rt: u8, sub: bool) -> BoxedStrategy<CS> {
     // the TEXT result type has no UNION in any position (todo!() / not implemented): generated rarely
     let union_w = if rt % 6 == T_TEXT { 1 } else { 10 };
     let union = proptest::collection::vec(if sub { prop_oneof![5 => leaf(rt), 1 => link()].boxed() } else { leaf(rt) }, 2..=3).prop_map(CS::Union);
+    // disjunctions of ids / of annotation constraints: they have a handle-collection form (forms facet)
+    let homogeneous = (any::<bool>(), proptest::collection::vec(idx(), 2..=3), meta(0.3))
+        .prop_map(move |(ids, picks, meta)| {
+            let ids = match rt % 6 {
+                T_ANN => ids,
+                T_RES | T_SET => true,
+                _ => false,
+            };
+            CS::Union(picks.into_iter().map(|pick| if ids { CS::Id { pick, missing: false } } else { CS::Annotation { pick, meta, rec: false } }).collect())
+        })
+        .boxed();
+    let homog_w = if rt % 6 == T_TEXT { 0 } else { 5 };
     if sub {
-        prop_oneof![60 => leaf(rt), 12 => link(), union_w => union].boxed()
+        prop_oneof![60 => leaf(rt), 12 => link(), union_w => union, homog_w => homogeneous].boxed()
     } else {
-        prop_oneof![70 => leaf(rt), union_w => union].boxed()
+        prop_oneof![70 => leaf(rt), union_w => union, homog_w => homogeneous].boxed()
     }
 }
 
@@ -1230,6 +1242,31 @@ pub fn qs_strategy(depth: u32) -> BoxedStrategy<QS> {
 /// a single-level select for mutation queries (DELETE / ADD target selection)
 pub fn qs_single(rt: u8) -> BoxedStrategy<QS> {
     qs_of(rt, 0, false)
+}
+
+/// arguments of the filter-method facet (`c08_filt.rs`)
+pub fn fargs_strategy() -> BoxedStrategy<super::filt::FArgs> {
+    (
+        proptest::collection::vec(idx(), 24..=24),
+        (any::<u16>(), any::<u32>(), any::<u16>()),
+        proptest::collection::vec(ops(), 2..=2),
+        (0u8..4, proptest::bool::weighted(0.3), 0u8..3, 0u8..3, 0u8..10),
+        any::<bool>(),
+    )
+        .prop_map(|(picks, (source, mask, sizes), ops, (text_kind, flip, re_kind, delim, relop), depth_max)| super::filt::FArgs {
+            picks,
+            source,
+            mask,
+            ops,
+            text_kind,
+            flip,
+            re_kind,
+            delim,
+            relop,
+            sizes,
+            depth_max,
+        })
+        .boxed()
 }
 
 /// history: two resources and a dataset up front, then the shared history generator
